@@ -10,23 +10,20 @@ def m(name, props, file, old, new, count=1):
     M.append((name, props, file, old, new, count))
 
 # ---- decoder / encoder (C01 C02 C03)
-m("C02-no-column-reset", "C02 C01", "src/decoder.rs", "        dst_col = 0;\n\n        decode_rmi", "        if dst_line == 0 { dst_col = 0; }\n\n        decode_rmi")
 m("C02-src-line-per-line", "C02", "src/decoder.rs", "        dst_col = 0;\n\n        decode_rmi", "        dst_col = 0;\n        if line.len() > 4000 { src_line = 0; }\n\n        decode_rmi")
-m("C02-debugId-preferred", "C02", "src/decoder.rs", "rsm.debug_id.or(rsm._debug_id_new)", "rsm._debug_id_new.or(rsm.debug_id)")
-m("C02-null-source-literal", "C02", "src/decoder.rs", "        .map(Option::unwrap_or_default)\n        .map(Into::into)", "        .map(|s| s.unwrap_or_else(|| \"null\".to_string()))\n        .map(Into::into)")
 m("C02-root-joined-to-http", "C02 C13", "src/types.rs", "                || source.starts_with(\"http:\")\n", "")
 m("C03-name-delta-after-sourceless", "C03 C01", "src/encoder.rs", "        if token.has_source() {\n            encode_vlq_diff(&mut rv, token.get_src_id(), prev_src_id);", "        if !token.has_source() {\n            prev_name_id = 0;\n        }\n        if token.has_source() {\n            encode_vlq_diff(&mut rv, token.get_src_id(), prev_src_id);")
-m("C03-ignorelist-null", "C03", "src/jsontypes.rs", "    #[serde(rename = \"ignoreList\", skip_serializing_if = \"Option::is_none\")]", "    #[serde(rename = \"ignoreList\")]")
 m("C01-dedup-ignores-name", "C01 C03", "src/encoder.rs", "            if Some(&token) == sm.get_token(idx - 1).as_ref() {\n                continue;\n            }\n            rv.push(',');", "            if sm.get_token(idx - 1).is_some_and(|p| p.get_dst() == token.get_dst() && p.get_src() == token.get_src() && p.get_src_id() == token.get_src_id()) {\n                continue;\n            }\n            rv.push(',');")
 m("C01-index-file-dropped-when-empty-sections", "C01", "src/encoder.rs", "            file: self.get_file().map(|x| Value::String(x.to_string())),\n            sources: None,", "            file: self.get_file().filter(|_| self.get_section_count() > 0).map(|x| Value::String(x.to_string())),\n            sources: None,")
 # ---- lookup / ordering (C04)
-m("C04-glb-no-walkback", "C04", "src/utils.rs", "        if map(&slice[i]) == *key {\n            idx = i;\n        } else {\n            break;\n        }", "        if i + 2 >= idx && map(&slice[i]) == *key {\n            idx = i;\n        } else {\n            break;\n        }")
+m("C04-glb-no-walkback", "C04", "src/utils.rs",
+  ["    for i in (0..idx).rev() {", "        if map(&slice[i]) == *key {\n            idx = i;\n        } else {\n            break;\n        }"],
+  ["    let start = idx;\n    for i in (0..idx).rev() {", "        if i + 3 > start && map(&slice[i]) == *key {\n            idx = i;\n        } else {\n            break;\n        }"])
 m("C04-adjust-no-resort", "C04 C10", "src/types.rs", "        self.tokens\n            .sort_unstable_by_key(|t| (t.dst_line, t.dst_col));\n    }\n}\n\nimpl SourceMapIndex", "        if self.tokens.len() < 12 {\n            self.tokens\n                .sort_unstable_by_key(|t| (t.dst_line, t.dst_col));\n        }\n    }\n}\n\nimpl SourceMapIndex")
 m("C04-new-sorts-by-line-only-when-large", "C04", "src/types.rs", "        tokens.sort_unstable_by_key(|t| (t.dst_line, t.dst_col));\n        SourceMap {", "        if tokens.len() > 48 {\n            tokens.sort_by_key(|t| t.dst_line);\n        } else {\n            tokens.sort_unstable_by_key(|t| (t.dst_line, t.dst_col));\n        }\n        SourceMap {")
 # ---- C06 / C11
 m("C06-arity-check-weakened", "C06", "src/decoder.rs", "                if nums.len() != 4 && nums.len() != 5 {", "                if nums.len() < 4 {")
 m("C06-name-range-off-by-one", "C06", "src/decoder.rs", "new_name_id >= names.len() as i64", "new_name_id > names.len() as i64")
-m("C11-overflow-limit-moved", "C11 C06", "src/vlq.rs", "        cur += val.checked_shl(shift).ok_or(Error::VlqOverflow)?;", "        cur += val.checked_shl(shift.min(63)).ok_or(Error::VlqOverflow)?;")
 m("C11-alphabet-last-two-swapped", "C11 C03", "src/vlq.rs", "0123456789+/\";", "0123456789/+\";")
 m("C11-leftover-check-dropped", "C11 C06", "src/vlq.rs", "    if cur != 0 || shift != 0 {", "    if cur != 0 {")
 # ---- C07
@@ -42,31 +39,32 @@ m("C09-contents-by-new-id", "C09", "src/types.rs", "                    .set_sou
 m("C09-prefix-without-slash", "C09", "src/builder.rs", "                if !prefix.ends_with('/') {\n                    prefix.push('/');\n                }\n", "")
 m("C09-hermes-fnmaps-not-remapped", "C09", "src/hermes.rs", "        if function_maps.len() >= mapping.len() {", "        if function_maps.len() > mapping.len() {")
 # ---- C10
-m("C10-no-clip-to-overlap-start", "C10", "src/types.rs", "                    std::cmp::max(original_range.start, adjustment_range.start);", "                    if original_range.start.0 == adjustment_range.start.0 { std::cmp::max(original_range.start, adjustment_range.start) } else { original_range.start };")
-m("C10-stretch-not-clipped-at-line-end", "C10", "src/types.rs", "                let end = std::cmp::min(next_start, (start.0, u32::MAX));", "                let end = std::cmp::min(next_start, (start.0 + 1, 0));")
+m("C10-no-clip-to-overlap-start", "C10", "src/types.rs", "                    std::cmp::max(original_range.start, adjustment_range.start);", "                    if original_range.value.is_range { original_range.start } else { std::cmp::max(original_range.start, adjustment_range.start) };")
+m("C10-stretch-not-clipped-at-line-end", "C10", "src/types.rs", "                let end = std::cmp::min(next_start, (start.0, u32::MAX));", "                let end = if next_start.0 > start.0 + 1 { next_start } else { std::cmp::min(next_start, (start.0, u32::MAX)) };")
 # ---- C12
 m("C12-bare-cr-accepted-slice-only", "C12", "src/decoder.rs", "        if need_newline && byte != b'\\n' {\n            fail!(io::Error::new(\n                io::ErrorKind::InvalidData,\n                \"expected newline\"\n            ));\n        } else if", "        if need_newline && byte != b'\\n' {\n            return Ok(&slice[idx..]);\n        } else if")
 m("C12-awaiting-newline-lost-across-reads", "C12", "src/decoder.rs", "            let read = self.r.read(local_buf)?;\n            if read == 0 {\n                return Ok(0);\n            }", "            let read = self.r.read(local_buf)?;\n            if read == 0 {\n                return Ok(0);\n            }\n            if self.header_state == HeaderState::AwaitingNewline {\n                self.header_state = HeaderState::Junk;\n            }")
-m("C12-pastheader-remainder-off-by-one", "C12", "src/decoder.rs", "                        if byte == b'\\r' {\n                            HeaderState::AwaitingNewline\n                        } else if byte == b'\\n' {\n                            HeaderState::PastHeader", "                        if byte == b'\\r' {\n                            HeaderState::AwaitingNewline\n                        } else if byte == b'\\n' && offset + 1 < read {\n                            HeaderState::PastHeader\n                        } else if byte == b'\\n' {\n                            buf[0] = b'\\n';\n                            self.header_state = HeaderState::PastHeader;\n                            return Ok(1);")
 # ---- C13
 m("C13-set-source-stale-prefix", "C13", "src/types.rs", "        if let Some(sources_prefixed) = self.sources_prefixed.as_mut() {\n            // If sources_prefixed is `Some`, we must have a nonempty `source_root`.\n            sources_prefixed[idx as usize] =\n                Self::prefix_source(self.source_root.as_deref().unwrap(), value);\n        }", "        if let Some(sources_prefixed) = self.sources_prefixed.as_mut() {\n            if !value.starts_with('/') {\n                sources_prefixed[idx as usize] =\n                    Self::prefix_source(self.source_root.as_deref().unwrap(), value);\n            }\n        }")
 m("C13-add-name-reuses-id-by-prefix", "C13", "src/builder.rs", "        let count = self.names.len() as u32;\n        let id = *self.name_map.entry(name.into()).or_insert(count);\n        if id == count {\n            self.names.push(name.into());\n        }\n        id", "        let count = self.names.len() as u32;\n        let id = *self.name_map.entry(name.into()).or_insert(count);\n        if id == count && !name.is_empty() {\n            self.names.push(name.into());\n        }\n        id")
 # ---- C14
 m("C14-line-plus-one-dropped", "C14", "src/hermes.rs", "&(u64::from(token.get_src_line()) + 1, token.get_src_col()),", "&(u64::from(token.get_src_line()) + u64::from(token.get_src_line() < 4096), token.get_src_col()),")
 m("C14-column-reset-dropped", "C14", "src/hermes.rs", "                let mut column = 0;\n\n                for mapping in line_mapping.split(',') {", "                let mut column = mappings.last().map_or(0, |m: &HermesScopeOffset| if m.line > 64 { m.column } else { 0 });\n\n                for mapping in line_mapping.split(',') {")
-m("C14-broken-fnmap-fails-decode", "C14", "src/hermes.rs", "                    parse_vlq_segment_into(mapping, &mut nums).ok()?;", "                    if parse_vlq_segment_into(mapping, &mut nums).is_err() {\n                        return Some(HermesFunctionMap { names: vec![], mappings: vec![] });\n                    }")
+m("C14-broken-fnmap-fails-decode", "C14", "src/hermes.rs", "                    parse_vlq_segment_into(mapping, &mut nums).ok()?;", "                    if parse_vlq_segment_into(mapping, &mut nums).is_err() {\n                        continue;\n                    }")
 # ---- C15
 m("C15-crlf-two-lines-at-chunk", "C15", "src/sourceview.rs", "                if rest[idx] == b'\\r' && rest.get(idx + 1) == Some(&b'\\n') {", "                if rest[idx] == b'\\r' && rest.get(idx + 1) == Some(&b'\\n') && idx + 2 < rest.len() {")
-m("C15-surrogate-width-ignored", "C15", "src/sourceview.rs", "                off_end += c.len_utf8();\n                idx += c.len_utf16();\n            }\n\n            if (idx as u64) < end {", "                off_end += c.len_utf8();\n                idx += 1;\n            }\n\n            if (idx as u64) < end {")
-m("C15-processed-until-short", "C15 C16", "src/sourceview.rs", "                self.processed_until\n                    .fetch_add(rest.len() + 1, Ordering::Relaxed);", "                self.processed_until\n                    .fetch_add(rest.len() + usize::from(!rest.is_empty()), Ordering::Relaxed);")
 # ---- C17
-m("C17-walk-limit-12", "C17", "src/sourceview.rs", "self.rev_token_iter(token).take(128).peekable()", "self.rev_token_iter(token).take(12).peekable()")
+m("C17-walk-limit-100", "C17", "src/sourceview.rs", "self.rev_token_iter(token).take(128).peekable()", "self.rev_token_iter(token).take(100).peekable()")
 m("C17-cached-offset-bytes-for-units", "C17", "src/sourceview.rs", "                new_offset -= c.len_utf8();\n                idx += c.len_utf16();", "                new_offset -= c.len_utf8();\n                idx += c.len_utf8().min(2);")
-m("C17-joiner-not-continue", "C17", "src/js_identifiers.rs", "    c == '$' || c == '_' || c == '\\u{200c}' || c == '\\u{200d}' || c.is_ascii_alphanumeric() || {", "    c == '$' || c == '_' || c == '\\u{200c}' || c.is_ascii_alphanumeric() || {")
 # ---- C18
 m("C18-trim-dropped", "C18", "src/detector.rs", "str::from_utf8(&line.as_bytes()[21..])?.trim().to_owned()", "str::from_utf8(&line.as_bytes()[21..])?.trim_start().to_owned()")
 m("C18-contains-instead-of-starts-with", "C18", "src/detector.rs", "        if line.starts_with(\"//# sourceMappingURL=\") || line.starts_with(\"//@ sourceMappingURL=\") {", "        let line = line.trim_start().to_string();\n        if line.starts_with(\"//# sourceMappingURL=\") || line.starts_with(\"//@ sourceMappingURL=\") {")
 m("C18-is-sourcemap-needs-names", "C18", "src/detector.rs", "            || rsm.names.is_some())\n            && rsm.mappings.is_some())\n        || rsm.sections.is_some()", "            || rsm.names.is_some())\n            && rsm.mappings.is_some())\n        || (rsm.sections.is_some() && rsm.file.is_some())")
+m("C02-integer-name-as-empty", "C02", "src/decoder.rs", "            Value::Number(num) => num.to_string().into(),", "            Value::Number(num) if num.is_u64() => num.to_string().into(),")
+m("C02-sections-not-sorted", "C02 C08", "src/decoder.rs", "    sections.sort_by_key(SourceMapSection::get_offset);", "    if sections.len() > 3 {\n        sections.sort_by_key(SourceMapSection::get_offset);\n    }")
+m("C13-builder-contents-resize", "C13", "src/builder.rs", "        if self.sources.len() > self.source_contents.len() {\n            self.source_contents.resize(self.sources.len(), None);\n        }\n        self.source_contents[src_id as usize] = contents.map(Into::into);", "        if self.sources.len() > self.source_contents.len() {\n            self.source_contents = vec![None; self.sources.len()];\n        }\n        self.source_contents[src_id as usize] = contents.map(Into::into);")
+m("C01-contents-dropped-when-first-null", "C01 C03", "src/encoder.rs", "                if let Some(contents) = contents {\n                    have_contents = true;", "                if let Some(contents) = contents {\n                    have_contents = have_contents || self.get_source_contents(0).is_some() || self.get_source_count() < 3;")
+m("C18-data-url-std-no-pad", "C18 C12", "src/types.rs", "base64_simd::Base64::STANDARD.encode_to_boxed_str(&buf)", "base64_simd::Base64::STANDARD_NO_PAD.encode_to_boxed_str(&buf)")
 # ---- C19
 m("C19-dot-for-sibling-dir", "C19", "src/utils.rs", "    if rel_list.is_empty() {\n        \".\".into()", "    if rel_list.is_empty() || (rel_list.len() == 2 && rel_list[0] == \"..\" && target_path.last() == base_path.last()) {\n        \".\".into()")
 # ---- C20
@@ -80,18 +78,25 @@ m("C05-flatten-unchecked-again", "C05", "src/types.rs", "                let dst
 
 os.makedirs(OUT, exist_ok=True)
 ok = 0
+for f in os.listdir(OUT):
+    if f.endswith(".diff") and not f.startswith("C16-"):
+        os.remove(os.path.join(OUT, f))
 for name, props, file, old, new, count in M:
     path = os.path.join(WT, file)
     src = open(path).read()
-    if src.count(old) != count:
-        print(f"!! {name}: pattern occurs {src.count(old)} times in {file}")
+    olds, news = (old, new) if isinstance(old, list) else ([old], [new])
+    bad = [o for o in olds if src.count(o) != count]
+    if bad:
+        print(f"!! {name}: pattern occurs {src.count(bad[0])} times in {file}")
         continue
-    open(path, "w").write(src.replace(old, new))
+    for o, n_ in zip(olds, news):
+        src = src.replace(o, n_)
+    open(path, "w").write(src)
     d = subprocess.run(["git", "-C", WT, "diff", "--", file], stdout=subprocess.PIPE, text=True).stdout
     subprocess.run(["git", "-C", WT, "checkout", "--", file])
     if name in ("C16-revert-fix", "C16-half-repair"):
         continue
     open(os.path.join(OUT, name + ".diff"), "w").write(d)
     ok += 1
-open(os.path.join(OUT, "INDEX.tsv"), "w").write("".join(f"{n}\t{p}\n" for n, p, *_ in M) + "C16-revert-fix\tC16 C15\nC16-half-repair\tC16\n")
+open(os.path.join(OUT, "INDEX.tsv"), "w").write("".join(f"{n}\t{p}\n" for n, p, *_ in M) + "C16-revert-fix\tC16\nC16-half-repair\tC16\n")
 print(ok, "mutants written")
